@@ -61,10 +61,10 @@ type Term struct {
 	c    uint64 // OConst value; OExtract: hi<<16|lo
 	name string // OVar / OUF
 	id   int
-	emit bool // defined in the solver session of this worker
+	emit int // generation of the solver session in which this term is defined (0 = none)
 	vars []int // sorted ids of the variables (and UF pseudo-variables) below this term
 	varsDone bool
-	plit bool // indicator literal declared in the solver
+	plit int // solver generation in which the indicator literal is declared
 	h1, h2 uint64 // structural hash (identical across workers)
 	hasUF bool
 }
